@@ -16,6 +16,8 @@ import Hts.Lemmas.IndexStats
 import Hts.Lemmas.IndexRepr
 import Hts.Lemmas.IndexIORead
 import Hts.Lemmas.IndexIOTabixRead
+import Hts.Lemmas.IndexIOCsiRead
+import Hts.Lemmas.IndexCsiRepr
 import Hts.Props.C04
 namespace Hts.Props.C15
 open Hts.Model Hts.Model.Index Hts.Model.IndexIO
@@ -192,8 +194,8 @@ theorem tabix_read_write_noRefs (n : Nat) (hn : n < 18446744073709551616) :
 
 /-! ### CSI versions 1 and 2, any auxiliary bytes -/
 
-/-- `read_write` (CSI): for every representable CSI index of version 1 or 2 with depth ≤ 9 and
-`minShift + 3·depth ≤ 62` (the geometry range `csi.ReadFrom` accepts) -/
+/-- `read_write` (CSI): for every representable CSI index of version 1 or 2 with `minShift + 3·depth ≤ 62`
+(the geometry range `csi.ReadFrom` accepts; the bin limit is the `uint32` value the code computes) -/
 theorem csi_read_write (i : Csi.CIndex) (h : CWF i) : readCsi (writeCsi i) = .ok (normCsi i) :=
   readCsi_writeCsi i h
 
@@ -209,17 +211,54 @@ theorem csi_chunks_norm (i : Csi.CIndex) (rid beg stop : Int) :
       Csi.chunks Coord.reg2bins Local.adjacent i rid beg stop :=
   IndexIO.csi_chunks_norm _ _ i rid beg stop
 
-/-- C04's completeness for CSI carries over to the index read back from the written bytes -/
-theorem csi_chunks_complete_after_roundtrip (ms d : Nat) (hd : d ≤ 10) (recs : List Csi.CRec)
-    (h : Csi.CSortedInput ms d recs) (hwf : CWF (Hts.Props.C04.csiBuilt ms d recs))
+/-- every CSI index built by `csi.Index.Add` from a coordinate-sorted input is representable (`CWF`), under
+hypotheses on the INPUT only: depth ≤ 9, minShift + 3·depth ≤ 62, fewer than 2^31 − 1 records, reference ids
+below 2^31 − 1, chunk offsets below 2^63; any version 1/2 and any auxiliary bytes.  The bound "bins + pseudo-bin
+≤ bin limit + 1" is a pigeonhole argument over the pairwise distinct bin numbers (`nodup_length_le`,
+`reg2bin_lt_binLimit`) and is tight: a reference may use every bin (fixes/C15-1) -/
+theorem csi_built_wf (ms d : Nat) (hd : d ≤ 9) (hgeom : ms + 3 * d ≤ 62)
+    (version : Nat) (hver : version = 1 ∨ version = 2) (aux : List UInt8) (haux : aux.length < 2147483648)
+    (recs : List Csi.CRec) (h : Csi.CSortedInput ms d recs) (hlen : recs.length < 2147483647)
+    (hrid : ∀ r, r ∈ recs → r.rid < 2147483647)
+    (hoff : ∀ r, r ∈ recs → r.chunk.e < 9223372036854775808) :
+    CWF (Csi.addAll Coord.reg2bin { aux := aux, version := version, minShift := ms, depth := d } recs).1 :=
+  csi_built_cwf ms d hd (by omega) hgeom _ ⟨rfl, rfl, rfl, rfl⟩ rfl rfl hver haux recs h hlen hrid hoff
+
+/-- CSI end to end, hypotheses on the input only: the built index is written, read back as its canonical
+form and written again to identical bytes -/
+theorem csi_roundtrip_built (ms d : Nat) (hd : d ≤ 9) (hgeom : ms + 3 * d ≤ 62)
+    (version : Nat) (hver : version = 1 ∨ version = 2) (aux : List UInt8) (haux : aux.length < 2147483648)
+    (recs : List Csi.CRec) (h : Csi.CSortedInput ms d recs) (hlen : recs.length < 2147483647)
+    (hrid : ∀ r, r ∈ recs → r.rid < 2147483647)
+    (hoff : ∀ r, r ∈ recs → r.chunk.e < 9223372036854775808) :
+    let i := (Csi.addAll Coord.reg2bin { aux := aux, version := version, minShift := ms, depth := d } recs).1
+    readCsi (writeCsi i) = .ok (normCsi i) ∧ writeCsi (normCsi i) = writeCsi i :=
+  ⟨readCsi_writeCsi _ (csi_built_wf ms d hd hgeom version hver aux haux recs h hlen hrid hoff), writeCsi_norm _⟩
+
+/-- "or previously read" (CSI): whatever byte string `csi.ReadFrom` accepts, the index it returns is
+well-formed, reads back as its canonical form, re-writes to the same bytes and answers identically -/
+theorem csi_previously_read (bs : Bytes) (i : Csi.CIndex) (h : readCsi bs = .ok i) :
+    CWF i ∧ readCsi (writeCsi i) = .ok (normCsi i) ∧ writeCsi (normCsi i) = writeCsi i ∧
+      ∀ rid beg stop, Csi.chunks Coord.reg2bins Local.adjacent (normCsi i) rid beg stop =
+        Csi.chunks Coord.reg2bins Local.adjacent i rid beg stop :=
+  ⟨readCsi_wf h, readCsi_writeCsi i (readCsi_wf h), writeCsi_norm i, IndexIO.csi_chunks_norm _ _ i⟩
+
+/-- C04's completeness for CSI carries over to the index read back from the written bytes (input-only
+hypotheses; `csiBuilt` is the version-2 index without auxiliary data) -/
+theorem csi_chunks_complete_after_roundtrip (ms d : Nat) (hd : d ≤ 9) (hgeom : ms + 3 * d ≤ 62)
+    (recs : List Csi.CRec) (h : Csi.CSortedInput ms d recs) (hlen : recs.length < 2147483647)
+    (hrid : ∀ r, r ∈ recs → r.rid < 2147483647)
+    (hoff : ∀ r, r ∈ recs → r.chunk.e < 9223372036854775808)
     (r : Csi.CRec) (hr : r ∈ recs) (hp : r.placed = true)
     (beg stop : Int) (hb : 0 ≤ beg) (hq : beg < stop) (hs : stop ≤ (2 : Int) ^ (ms + 3 * d))
     (hov1 : r.start < stop) (hov2 : beg < r.stop) :
     ∃ i', readCsi (writeCsi (Hts.Props.C04.csiBuilt ms d recs)) = .ok i' ∧
       coveredBy (Csi.chunks Coord.reg2bins Local.adjacent i' r.rid beg stop) r.chunk := by
+  have hwf : CWF (Hts.Props.C04.csiBuilt ms d recs) :=
+    csi_built_wf ms d hd hgeom 2 (Or.inr rfl) [] (by simp) recs h hlen hrid hoff
   refine ⟨_, readCsi_writeCsi _ hwf, ?_⟩
   rw [IndexIO.csi_chunks_norm]
-  exact (Hts.Props.C04.csi_chunks_complete ms d hd recs h r hr hp beg stop hb hq hs hov1 hov2 id encLaw_id).1
+  exact (Hts.Props.C04.csi_chunks_complete ms d (by omega) recs h r hr hp beg stop hb hq hs hov1 hov2 id encLaw_id).1
 
 /-! ### statistics equal the true counts -/
 
